@@ -25,22 +25,31 @@ CONSTANTS K, Rids, EdgeKinds
 VARIABLES rid, edge, remoteRoot
 
 Nodes == 1..K
-IdMatch(u, v, mapped) ==
-    IF mapped THEN rid[v] = rid[u] \/ (rid[v] = "a" /\ rid[u] = "ax")   \* prefix
+\* "none": the file carries no identifier at all.  A basin without identifier
+\* does not equal (nor is it a prefix of) a referrer's identifier; when the
+\* REFERRER has none there is nothing to compare with and the property is
+\* silent: `lenient` says whether such a basin is followed.
+IdMatch(u, v, mapped, lenient) ==
+    IF rid[u] = "none" THEN lenient
+    ELSE IF rid[v] = "none" THEN FALSE
+    ELSE IF mapped THEN rid[v] = rid[u] \/ (rid[v] = "a" /\ rid[u] = "ax")   \* prefix
     ELSE rid[v] = rid[u]
 
 \* states of the traversal: <<node, reached through the network?>>
-Step(S) ==
+Step(S, len) ==
     S \cup {<<v, TRUE>> : v \in {w \in Nodes : \E s \in S :
-                   edge[s[1]][w] = "remote" /\ IdMatch(s[1], w, FALSE)}}
+                   edge[s[1]][w] = "remote" /\ IdMatch(s[1], w, FALSE, len)}}
       \cup {<<v, FALSE>> : v \in {w \in Nodes : \E s \in S :
                    ~s[2] /\ edge[s[1]][w] \in {"file", "filemapped"}
-                   /\ IdMatch(s[1], w, edge[s[1]][w] = "filemapped")}}
-RECURSIVE Fix(_)
-Fix(S) == IF Step(S) = S THEN S ELSE Fix(Step(S))
+                   /\ IdMatch(s[1], w, edge[s[1]][w] = "filemapped", len)}}
+RECURSIVE FixL(_, _)
+FixL(S, len) == IF Step(S, len) = S THEN S ELSE FixL(Step(S, len), len)
+Fix(S) == FixL(S, TRUE)
 Reached == {s[1] : s \in Fix({<<1, remoteRoot>>})}
-\* the features the root dataset offers = the files reached
+\* the features the root dataset may offer = the files reached; the ones it
+\* must offer = those reached without relying on the silent case
 Offered == Reached
+MustOffer == {s[1] : s \in FixL({<<1, remoteRoot>>}, FALSE)}
 
 Init == /\ rid \in [Nodes -> Rids]
         /\ edge \in [Nodes -> [Nodes -> EdgeKinds]]
@@ -56,5 +65,5 @@ NoLocalBelowRemote ==
                 ~t[2] /\ edge[t[1]][s[1]] \in {"file", "filemapped"}
 
 Emit == PrintT(<<"H", ToJson([rid |-> rid, edge |-> edge, remoteRoot |-> remoteRoot,
-                              offered |-> Offered])>>)
+                              offered |-> Offered, must |-> MustOffer])>>)
 =============================================================================
